@@ -83,7 +83,7 @@ def render_sym(s, doubled):
     elif k == "TO":
         w = tab(s["n"])
     elif k == "MID":
-        w = midrow(s["i"])
+        w = midrow(s["i"], s.get("u", False), s.get("color", 0))
     elif k == "SP":
         w = special[s["x"]]
     elif k == "EXT":
@@ -173,8 +173,15 @@ def _row_items(rng, room):
             syms.append({"k": "SP", "x": rng.choice(sp_cps)})
             used += 1
         elif kind == "extended" and used + 1 <= room:
-            # a stand-in basic character, then the extended character that replaces it
-            syms.append({"k": "CH", "a": rng.choice(LETTERS), "b": 0})
+            # a stand-in, then the extended character that replaces it; the stand-in is a basic
+            # character as a rule, now and then a special character or a blank
+            r = rng.random()
+            if r < 0.8:
+                syms.append({"k": "CH", "a": rng.choice(LETTERS), "b": 0})
+            elif r < 0.9 and syms:
+                syms.append({"k": "CH", "a": 32, "b": 0})
+            else:
+                syms.append({"k": "SP", "x": rng.choice(sp_cps)})
             syms.append({"k": "EXT", "x": rng.choice(ext_cps)})
             used += 1
         elif kind == "bs" and used + 2 <= room:
@@ -182,7 +189,13 @@ def _row_items(rng, room):
             syms.append({"k": "BS"})
             used += 1
         elif kind in ("mid_on", "mid_off") and used + 2 <= room and syms:
-            syms.append({"k": "MID", "i": kind == "mid_on"})
+            mid = {"k": "MID", "i": kind == "mid_on"}
+            # the underlined twin of the code (same italics meaning), or a colour for a plain one
+            if rng.random() < 0.25:
+                mid["u"] = True
+            if not mid["i"] and rng.random() < 0.3:
+                mid["color"] = rng.randrange(0, 7)
+            syms.append(mid)
             syms.append({"k": "CH", "a": rng.choice(LETTERS), "b": 0})
             used += 2
     if not syms or used == 0:
@@ -208,7 +221,12 @@ def popon_caption(rng, rows=None):
     for r in rows:
         italic = rng.random() < p_italic
         col = 0 if italic else rng.choice([0, 0, 4, 8, 12, 16, 20, 24, 28])
-        syms.append({"k": "PAC", "r": r, "c": col, "i": italic})
+        p = {"k": "PAC", "r": r, "c": col, "i": italic}
+        if rng.random() < 0.2:
+            p["u"] = True                  # underline bit: no bearing on text, italics or position
+        if col == 0 and not italic and rng.random() < 0.25:
+            p["color"] = rng.randrange(0, 7)
+        syms.append(p)
         to = 0
         if rng.random() < 0.3 and col + 3 <= 31:
             to = rng.randrange(1, 4)
